@@ -314,3 +314,8 @@ def run(index, rep, tier):
                     rep.check(v.lower() in accepted, "R02.4", wfi.qualname, 'root="%s" accepted by reader' % v, fn_where(wfi), 'root="%s" is one of the reader\'s accepted spellings %s' % (v, sorted(accepted)),
                               'the writer marks the root with root="%s" but the reader accepts only %s' % (v, sorted(accepted)))
         rep.floor("R02.4", "attributes written for tree-side NeXML elements", 15, nattr)
+
+    # ---- R02.8 labels are found again under their own name
+    with rep.section("R02.8"):
+        rep.rule("R02.8", "a label written is found again under its own name: the readers look taxa up through the namespace, whose cached folded label, folded query and caseless maps use one folding method and are refreshed on relabelling (C10 R10.9)")
+        rep.floor("R02.8", "borrowed obligations", 5, borrow(index, rep, "C10", {"R10.9"}, "R02.8"))
